@@ -23,8 +23,8 @@ T = [
   "C08|describe-differs|<Db class>|col#.v[#] for all six Db classes", "store.cpp roundtrip mode 5: a sibling object is written first in the same process"),
  ("C08", 3, "Vario::_deserialize: direction coefficients and grid increments read in swapped order (grid-defined directions)",
   "a variogram whose direction is an oblique or multi-cell grid increment, e.g. grincr={2,1}",
-  "MISSED: the generator builds no grid-defined directions", "-",
-  "not closed: computing a variogram along oblique grid increments, and even serialising a created-but-not-computed one, overruns Vario::_setResult / Vario::getAllSw on the unchanged tree (a C12-type defect), so such objects cannot be generated without crashing the generator; stated as a gap"),
+  "MISSED by the first version (the generator built no grid-defined directions: computing them crashed the library); caught after the stale-direction defect of Vario.cpp was repaired in /repo and the generator extended",
+  "C08|describe-differs|Vario|dir#.codir[#]", "store_classes.cpp makeVarioOnGrid (one Vario in seven has directions given as grid increments)"),
  ("C09", 1, "gslSafeGetline: CR followed by end of file puts the CR back and never reaches EOF",
   "a file whose last byte is a lone CR (CR+LF file cut between CR and LF)",
   "caught by quick as first built (damage kind cr-only leaves a lone CR at the end)", "C09|timeout|op=load.fmt.CSV (loader does not return)", ""),
@@ -82,10 +82,19 @@ T = [
   "caught by quick as first built", "C19|failure-left-changes|simtub_nc|dbout:extra-column(...), |simfft|...", ""),
 ]
 
+FINAL = {}
 def main():
     for pid, n, what, needs, how, sig, strengthened in T:
         d = "/verif/seeded/%s-%d" % (pid, n)
         os.makedirs(d, exist_ok=True)
+        det = d + "/detect.txt"
+        final = {}
+        if os.path.exists(det):
+            L = open(det).read().splitlines()
+            final = {"patch_used": L[0].replace("patch: ", "") if L else "", "tree": L[1].replace("tree: ", "") if len(L) > 1 else "",
+                     "exit": L[2].replace("exit: ", "") if len(L) > 2 else "",
+                     "signatures": [l.split(" sig=")[1].split(" :: ")[0] for l in L if l.startswith("VIOLATION") and " sig=" in l]}
+        FINAL[(pid, n)] = final
         meta = {
             "property": pid,
             "change": what,
@@ -97,6 +106,7 @@ def main():
             "detection": how,
             "signature": sig,
             "strengthening": strengthened,
+            "final_run": final,
         }
         json.dump(meta, open(d + "/meta.json", "w"), indent=1)
     with open("/verif/SENSITIVITY.md", "w") as f:
@@ -105,11 +115,15 @@ def main():
                 "compiles, passes the 113 pinned tests, and breaks the property on a demonstration input (seeded/<id>-<n>/demo.cpp,\n"
                 "confirmed with tools/confirm_mutant.sh, output in confirm.txt). Detection was measured with tools/try_mutant.sh:\n"
                 "`git -C /repo apply patch.diff`, `./check <ID> --tier quick`, `git -C /repo checkout -- .`.\n\n")
-        f.write("| change | what was changed | first result | signature reported | strengthening that followed |\n|---|---|---|---|---|\n")
+        f.write("| change | what was changed | history | strengthening that followed | final run (tools/run_seeded.sh on the final tree): exit, signatures |\n|---|---|---|---|---|\n")
+        caught = 0
         for pid, n, what, needs, how, sig, strengthened in T:
-            f.write("| %s-%d | %s (needs: %s) | %s | `%s` | %s |\n" % (pid, n, what, needs, how, sig.replace("|", "\\|"), strengthened or "-"))
-        caught = sum(1 for t in T if not t[4].startswith("MISSED: "))
-        f.write("\n%d of %d changes are reported by the quick tier of the final machinery; %d is a stated gap (C08-3).\n" % (caught, len(T), len(T) - caught))
+            fin = FINAL.get((pid, n), {})
+            if fin.get("exit") == "1" and fin.get("signatures"): caught += 1
+            fs = ", ".join("`%s`" % s.replace("|", "\\|") for s in fin.get("signatures", [])[:4]) or "-"
+            f.write("| %s-%d | %s (needs: %s) | %s | %s | exit %s: %s%s |\n" % (pid, n, what, needs, how, strengthened or "-", fin.get("exit", "?"), fs,
+                    " (adapted patch: the original no longer applies after a fix: commit)" if "adapted" in fin.get("patch_used", "") else ""))
+        f.write("\n%d of %d changes are reported (exit 1 with a VIOLATION line) by the quick tier of the final machinery on the final tree.\n" % (caught, len(T)))
         extra = "/verif/tools/sensitivity_extra.md"
         if os.path.exists(extra):
             f.write("\n" + open(extra).read())
